@@ -67,7 +67,7 @@ class World:
         for i in range(ncall):
             n = 1 if small else rng.choice([1, 1, 2])
             callers.append([('change-target' if equal else rng.choice(kinds)) for _ in range(n)])
-        fault = 'none' if small and rng.random() < 0.5 else rng.choice(['none', 'none', 'peer-drop', 'user-drop', 'both-drop', 'silence', 'error-replies'])
+        fault = 'none' if small and rng.random() < 0.5 else rng.choice(['none', 'none', 'peer-drop', 'user-drop', 'both-drop', 'silence', 'error-replies', 'send-fails'])
         scen = {'callers': callers, 'order': rng.choice(['immediate', 'reverse', 'shuffle', 'delayed']), 'updates': rng.random() < 0.4,
                 'fault': fault, 'fault_at': rng.randint(0, max(0, sum(len(c) for c in callers))), 'peerseed': rng.randrange(1 << 20)}
         if not small and rng.random() < 0.2:
@@ -216,6 +216,13 @@ class World:
                     except Exception as e:
                         rec_['error'] = (type(e).__name__, str(e)[:120])
                     rec_['t_ret'] = s.now
+            if scen['fault'] == 'send-fails':
+                # the connection loss is noticed by the transmit thread first (its send fails) while the receive thread is
+                # still waiting for input: the peer neither answers nor closes
+                self.sockmod.sockets[-1].fail_send = BrokenPipeError(32, 'Broken pipe')
+                self.sockmod.listeners.clear()
+                state['peer_dropped'] = True
+                state['drop_time'] = s.now
             ths = [D.CoThread(target=caller, args=(i,), name=f'caller{i}') for i in range(len(scen['callers']))]
             for t in ths:
                 t.start()
@@ -272,7 +279,10 @@ class World:
             return
         stuck = [a for a in s.alive if a[0].startswith('caller') or a[0] == 'root'] if s.status in ('horizon', 'deadlock') else []
         if stuck:
-            r.violation('C11/caller-never-returns', f'run ended with {s.status}; stuck: {s.alive[:4]}', case)
+            # mechanism: which worker threads of the client are stuck together with the caller
+            pattern = '+'.join(sorted({a[0].split(':')[-1] for a in s.alive if a[0].startswith('frappy.client:')})) or 'no-client-thread'
+            who = 'with-user-disconnect' if scen['fault'] in ('user-drop', 'both-drop') else 'connection-lost-only'
+            r.violation(f'C11/caller-never-returns/{pattern}/{who}', f'run ended with {s.status}; stuck: {s.alive[:5]}', case)
             return
         drop = state['drop_time'] if state['peer_dropped'] else None
         udrop = state['user_drop_time']
@@ -284,7 +294,7 @@ class World:
         for key, rec_ in sorted(results.items()):
             r.count('callers_checked')
             if 't_ret' not in rec_:
-                r.violation('C11/caller-never-returns', f'caller {key} ({rec_["kind"]}) has not returned at the end of the run', case)
+                r.violation('C11/caller-never-returns/at-end-of-run', f'caller {key} ({rec_["kind"]}) has not returned at the end of the run', case)
                 return
             dt = rec_['t_ret'] - rec_['t_call']
             tok = rec_['tok']
